@@ -65,6 +65,18 @@ def run(rep, tier, seed, tr_errors):
             warnings.simplefilter("ignore")
             return pyimpspec.calculate_drt(DataSet(f, Z), **kw)
 
+    for f_ in kf.get("findings", []):          # recorded reproducers run first
+        if f_.get("property") == PROP and "reproducer" in f_:
+            r_ = f_["reproducer"]
+            fr = np.logspace(r_["log_f_max"], r_["log_f_min"], (r_["log_f_max"] - r_["log_f_min"]) * r_["points_per_decade"] + 1)
+            try:
+                drt(fr, parse_cdc(r_["cdc"]).get_impedances(fr), method="tr-nnls", mode=r_["mode"], lambda_value=r_["lambda_value"])
+            except RuntimeError as e:
+                if "iterations" in str(e):
+                    rep.known.append("%s: %s" % (f_["id"], f_["what"]))
+            except Exception:  # noqa
+                pass
+            rep.evaluations += 1
     reps = 1 if tier == "quick" else 6
     for n in (1, 2, 3, 4):
         for kind in ("RC", "RQ") + (("mixed",) if n >= 2 else ()):
